@@ -139,7 +139,7 @@ def main(argv=None) -> int:
     if a.shard:
         i, n = map(int, a.shard.split("/"))
         _watchdog(prop, SHARD_TIMEOUT_S)
-        ctx = Ctx(prop, a.tier, seed, shard=(i, n))
+        ctx = Ctx(prop, a.tier, seed, shard=(i, n), scale=getattr(mod, "THOROUGH_SCALE", 4))
         run_in_process(mod, ctx)
         with open(a.out, "w") as f:
             json.dump(ctx.partial(), f)
@@ -148,10 +148,10 @@ def main(argv=None) -> int:
     nshards = a.shards or getattr(mod, "SHARDS", {}).get(a.tier, 1)
     if nshards <= 1:
         _watchdog(prop, QUICK_TIMEOUT_S if a.tier == "quick" else SHARD_TIMEOUT_S)
-        ctx = Ctx(prop, a.tier, seed)
+        ctx = Ctx(prop, a.tier, seed, scale=getattr(mod, "THOROUGH_SCALE", 4))
         run_in_process(mod, ctx)
     else:
-        ctx = Ctx(prop, a.tier, seed, shard=(0, nshards))
+        ctx = Ctx(prop, a.tier, seed, shard=(0, nshards), scale=getattr(mod, "THOROUGH_SCALE", 4))
         tmp = tempfile.mkdtemp(prefix=f"spv-{prop}-")
         try:
             procs = []
